@@ -35,8 +35,20 @@ CONTRACTS = []
 RECIPES = ("ctor", "inplace", "parse", "parse-unknown", "from_dict")
 
 
+# google.protobuf.Struct / Value / ListValue have hand-written to_dict / from_dict in the bundled library: observers of
+# such messages must be pure as well.  Their JSON decoding is outside the corpus grammar (DESIGN 3.3), so these
+# messages are only built by constructor / parse, never through from_dict.
+STRUCT_ITEM = {"kind": "literal", "recipes": ["ctor", "parse", "parse-unknown"], "protos": {"vf_struct.proto": (
+    'syntax = "proto3";\npackage vf.structs;\nimport "google/protobuf/struct.proto";\n'
+    "message M { google.protobuf.Struct s = 1; google.protobuf.Value v = 2; google.protobuf.ListValue l = 3; int32 x = 4;\n"
+    "  repeated google.protobuf.Struct rs = 5; map<string, google.protobuf.Value> mv = 6; }\n")}}
+
+
 def plan(tier, seed):
-    return plan_items(tier, seed, n_gen_quick=8, n_gen_thorough=200, n_quick=70, n_thorough=500)
+    shards = plan_items(tier, seed, n_gen_quick=8, n_gen_thorough=200, n_quick=70, n_thorough=500)
+    shards.append({"item": STRUCT_ITEM, "seed": seed * 7919 + 999, "n": 40 if tier == "quick" else 400, "matrix": "sample",
+                   "time_cap": 40 if tier == "quick" else 100})
+    return shards
 
 
 def observers(b, mi, peer=None):
@@ -132,7 +144,7 @@ def check_case(b, bp, ref, mi, tree, res: Result, w, rng):
     names = sorted(obs)
     wg = WireGen(b, rng)
     known = {f.number for f in mi.fields}
-    recipes = [w["recipe"]] if w.get("recipe") else RECIPES
+    recipes = [w["recipe"]] if w.get("recipe") else (w.get("item", {}).get("recipes") or RECIPES)
     for recipe in recipes:
         unk = bytes.fromhex(w["unk"]) if w.get("unk") else (wg.unknown_record(known) if recipe == "parse-unknown" else b"")
         seq = w["seq"] if w.get("seq") is not None else [rng.choice(names) for _ in range(rng.randint(0, 8))]
@@ -185,6 +197,17 @@ def check_case(b, bp, ref, mi, tree, res: Result, w, rng):
                 if mutated and after != before:
                     res.violation("copy-not-independent", [op, recipe, mutated],
                                   f"{mi.full_name}: mutating ({mutated}) the {op} changed the original: {before.hex()[:120]} -> {after.hex()[:120]}", dict(ww, op=op))
+                # decoding more data into the copy (known + unknown records) is a mutation of the copy only
+                try:
+                    more = wg.unknown_record(known) + (ab[: 0] if not ab else b"") + wg.unknown_record(known)
+                    before = bytes(a2)
+                    c.parse(more)
+                    if bytes(a2) != before:
+                        res.violation("copy-not-independent", [op, recipe, "parse-more-into-copy"],
+                                      f"{mi.full_name}: decoding {more.hex()} into the {op} changed the original: {before.hex()[:120]} -> {bytes(a2).hex()[:120]}", dict(ww, op=op))
+                    res.note("copies_parse_more")
+                except Exception as e:
+                    res.note("copy-parse-more-raised:" + type(e).__name__)
         # ---- purity: observed twin vs untouched twin
         try:
             sa = snapshot(b, bp, mi, a)
